@@ -221,6 +221,12 @@ theorem setsInv_step {s s' : State} {a : Act} {o : Out} (h : SetsInv s) (hs : st
     · simp at hs; obtain ⟨rfl, -⟩ := hs
       constructor <;> intro c' <;> simp <;> (repeat' split) <;> intros <;> first | exact hl _ _ | exact hr _ _ _ ‹_›
     · simp at hs
+  | routerOk c =>
+    simp only [step] at hs
+    split at hs
+    · simp at hs; obtain ⟨rfl, -⟩ := hs
+      constructor <;> intro c' <;> simp <;> (repeat' split) <;> intros <;> first | exact hl _ _ | exact hr _ _ _ ‹_›
+    · simp at hs
   | stopReq c =>
     simp only [step] at hs
     split at hs
@@ -345,6 +351,13 @@ theorem step_nonmicro_tables {s s' : State} {a : Act} {o : Out} (ha : ∀ th ch 
       repeat' split
       all_goals (try subst_vars)
       all_goals first | exact SameTables.rfl' _ | exact ⟨rfl, rfl, rfl, rfl, rfl, rfl, rfl, rfl, rfl, rfl⟩
+    · simp at hs
+  | routerOk c =>
+    simp only [step] at hs
+    split at hs
+    · simp only [Option.some.injEq, Prod.mk.injEq] at hs
+      obtain ⟨rfl, -⟩ := hs
+      exact SameTables.rfl' _
     · simp at hs
   | stopReq c =>
     simp only [step] at hs
